@@ -497,6 +497,30 @@ func cosiCase(x *hx.Ctx, n, maskBits int) {
 		}
 		x.Err(fmt.Sprintf("mask replaced by %0*b", n, m2), cosi.Verify(s, pubs, msg, s3, pol))
 	}
+	// padding bits of the last mask byte belong to no cosigner: setting them must never satisfy a stricter policy
+	if n%8 != 0 {
+		for _, pad := range [][]int{{n}, {7}, {n, 7}} {
+			s4 := append([]byte{}, sig...)
+			last := len(s4) - 1
+			for _, b := range pad {
+				s4[last] |= 1 << (b % 8)
+			}
+			if bytes.Equal(s4, sig) {
+				continue
+			}
+			for th := len(on) + 1; th <= n; th++ {
+				x.Err(fmt.Sprintf("padding bits %v set: threshold %d with %d real cosigners", pad, th, len(on)), cosi.Verify(s, pubs, msg, s4, cosi.NewThresholdPolicy(th)))
+			}
+			if !full {
+				x.Err(fmt.Sprintf("padding bits %v set: complete policy with %d of %d cosigners", pad, len(on), n), cosi.Verify(s, pubs, msg, s4, nil))
+			}
+			m4, _ := cosi.NewMask(s, pubs, nil)
+			if err := m4.SetMask(s4[pl+sl:]); err == nil {
+				x.Require(fmt.Sprintf("padding bits %v set: CountEnabled counts cosigners only", pad), m4.CountEnabled() == len(on), m4.CountEnabled())
+				x.ValidP(fmt.Sprintf("padding bits %v set: AggregatePublic unchanged", pad), m4.AggregatePublic, want)
+			}
+		}
+	}
 	x.Err("truncated", cosi.Verify(s, pubs, msg, sig[:len(sig)-1], pol))
 	x.Err("extended", cosi.Verify(s, pubs, msg, append(append([]byte{}, sig...), 0), pol))
 	if n > 1 {
